@@ -101,6 +101,15 @@ func execC09(seg []Ev) []Ev {
 					t.SetFieldSeparators([]rune{0x1})
 					t.SetQuoteSymbols(quotes)
 					t.SetFieldSeparators(seps)
+				} else if cfg == "after-rejected" {
+					// a rejected configuration call (a separator that is a quote symbol) in between leaves everything as it was
+					t.SetFieldSeparators([]rune{0x1})
+					t.SetQuoteSymbols(quotes)
+					t.SetFieldSeparators(seps)
+					guarded(func() { t.SetFieldSeparators([]rune{0x2, quotes[0]}) })
+					guarded(func() { t.SetQuoteSymbols([]rune{0x3, seps[0]}) })
+					guarded(func() { t.SetFieldSeparators([]rune{'\n'}) })
+					t.SetQuoteSymbols(quotes) // a valid call rebuilds the states from what is stored
 				} else if cfg == "doubled" {
 					// every separator and quote character listed twice
 					t.SetFieldSeparators(append(append([]rune{}, seps...), seps...))
@@ -118,6 +127,14 @@ func execC09(seg []Ev) []Ev {
 			}
 			t.SetDecodeStrings(true)
 			toks = t.TokenizeBuffer(text)
+			// the list stays what it was when the same tokenizer goes on to another table
+			then := tokRender(toks)
+			t.TokenizeBuffer("x" + string(seps[0]) + string(quotes[0]) + "y" + string(quotes[0]) + eol + text)
+			if now := tokRender(toks); now != then {
+				e["held_what"], e["held_then"], e["held_now"] = "token list after the same tokenizer tokenized another table", short(then), short(now)
+			}
+			tk, tx := t, text
+			hold("token list and tokenizer of the previous table", func() string { return then[:0] + tokRender(toks) + tokRender(tk.TokenizeBuffer(tx)) })
 		})
 		tj := [][]any{}
 		for _, t := range toks {
@@ -182,6 +199,8 @@ func genC09(g *Gen) {
 			cfg = "after-other"
 		case x == 5:
 			cfg = "doubled"
+		case x == 6:
+			cfg = "after-rejected"
 		}
 		g.Run(gen, []Ev{{"op": "csv", "seps": cpsR(seps), "quotes": cpsR(quotes), "eol": cps(eol), "table": table, "plans": plans, "cfg": cfg}})
 	}
